@@ -112,7 +112,13 @@ type Engine struct {
 	heapStructs map[string]types.Type
 	records map[string]*Sort
 	recordOrder []string
+	pkgList    []*pkgT
+	aliasNotes []string
+	baseFields map[string]map[string]bool
+	newFieldHeaps map[string]bool
 }
+
+type pkgT = packages.Package
 
 type Macro struct {
 	Params []string
